@@ -75,6 +75,9 @@ def make_jobs(tier, seed, scale):
         for o in (FILL, IMM, DUAL | FILL, MULTI | NOPAD, MULTI | FILL | IMM):
             jobs.append(["--mode", "exh", "--depth", "4", "--few-sizes", "--options", str(o),
                          "--fill-pattern", "0x5AA5C33C" if o & CUSTOM else "0"])
+        # bounded-exhaustive over sizes computed from the allocator's geometry (exact fit of a first / second block, -+ 1 granule)
+        for o in (0, NOPAD, FILL, MULTI, DUAL | IMM):
+            jobs.append(["--mode", "exh", "--depth", "4", "--geom-sizes", "--options", str(o), "--fill-pattern", "0"])
         nh, nops = int(12 * scale) or 1, 2000
         for i, o in enumerate(sets):
             gran = [0, 128, 256][i % 3]
@@ -92,6 +95,11 @@ def make_jobs(tier, seed, scale):
         for o in sets:
             jobs.append(["--mode", "exh", "--depth", "5", "--few-sizes", "--options", str(o),
                          "--fill-pattern", "0x5AA5C33C" if o & CUSTOM else "0"])
+        for o in (0, NOPAD, FILL):
+            for sh in range(8):
+                jobs.append(["--mode", "exh", "--depth", "5", "--geom-sizes", "--options", str(o), "--shards", "8", "--shard", str(sh)])
+        for o in (MULTI, DUAL | IMM, MULTI | FILL | IMM, NOPAD | MULTI, IMM, DUAL | FILL):
+            jobs.append(["--mode", "exh", "--depth", "4", "--geom-sizes", "--options", str(o), "--block-size", "131072" if o & IMM else "0"])
         nh, nops = int(40 * scale) or 1, 10000
         for rep in range(5):       # (29 option sets x 5 repetitions; it was 26 x 6 before the sets of round 11 were added)
             for i, o in enumerate(sets):
@@ -196,6 +204,9 @@ def run(tier, args):
         "compared with statistics().reserved_size(); sampled in 1 of 64 bounded-exhaustive histories",
         "requests above 2^31-1 bytes may be refused or honoured; if honoured the span must be real and accounted (the memory is never touched); "
         "sizes just below the limit are not generated (they would reserve 2 GiB)",
+        "geometry sizes: requests are computed from block_size(), granularity(), the padding option and the size of the block each pool mapped "
+        "last (observed through statistics()); 'exact fit into a fresh block' is MEASURED (block_count grew and the growth of used_size equals the "
+        "growth of reserved_size), not assumed",
         "release() probes with pointers that are not live span starts run one per short history (mode misuse), because an accepted probe "
         "leaves the bookkeeping undefined",
     ]
@@ -203,7 +214,9 @@ def run(tier, args):
         need = ["custom_pattern_allocators", "ignored_pattern_allocators", "huge_requests", "nonlive_queries", "stale_shrinks",
                 "release_fill_checked", "overhead_exact_checks", "invalid_param_allocators", "valid_block_size_allocators",
                 "os_map_checks_after_hard_reset", "os_map_checks_after_destroy", "scoped_writes", "policy_writes", "misuse_probes",
-                "dense_histories", "overhead_calibrated"]
+                "dense_histories", "overhead_calibrated", "geom_requests", "exact_fit_fresh_block", "exact_fit_later_block",
+                "geom_spill_into_bigger_block", "exact_fit_then_soft_reset", "exact_fit_then_shrink_and_tail_alloc", "exact_fit_then_release_all",
+                "reset_dead_queries", "reset_retained_block_allocs"]
         empty = [k for k in need if not dims.get(k)]
         if empty or tot["max_live"] < 400:
             chk.finish()
